@@ -476,4 +476,6 @@ POLICIES = [
 def gen_sched(rng, policies=None):
     p = dict(rng.choice(policies or POLICIES))
     p['seed'] = rng.randrange(1 << 30)
+    if rng.random() < 0.3:
+        p['rel'] = 1        # pre-emption points also right after every lock release
     return p
